@@ -55,9 +55,10 @@ template<class T> static void cat_kll_t(std::vector<Entry>& out, const char* tna
     if (k.view && !s.is_empty()) (void)s.get_quantile(0.5);
     Entry e; e.family = "kll"; e.kind = std::string(k.kind) + "_" + tname; e.name = "kll_" + e.kind;
     e.hints = J().i("isz", isz_of<T>::v()).done();
-    e.bytes = tob(s.serialize());
-    e.proj = proj_kll(s, mink);
-    e.reader = [mink](const Bytes& x) { auto r = kll_sketch<T>::deserialize(x.data(), x.size()); Bytes rs = tob(r.serialize()); return Read{proj_kll(r, mink), rs}; };
+    fill(e, s,
+      [](const kll_sketch<T>& o, bool st) { return st ? via_stream([&](std::ostream& os) { o.serialize(os); }) : tob(o.serialize()); },
+      [mink](const Bytes& x, bool st) { if (!st) return kll_sketch<T>::deserialize(x.data(), x.size()); auto is = in_stream(x); return kll_sketch<T>::deserialize(is); },
+      [mink](const kll_sketch<T>& o) { return proj_kll(o, mink); });
     out.push_back(e);
   }
 }
@@ -88,9 +89,10 @@ static void cat_req(std::vector<Entry>& out) {
     req_sketch<float> s((uint16_t)k.k, k.hra);
     for (int i = 1; i <= k.n; i++) s.update((float)(PV(i)) * 0.5f);
     Entry e; e.family = "req"; e.kind = k.kind; e.name = "req_" + e.kind; e.hints = J().i("isz", 4).done();
-    e.bytes = ser_stream(s);
-    e.proj = proj_req(s);
-    e.reader = [](const Bytes& x) { auto r = req_sketch<float>::deserialize(x.data(), x.size()); Bytes rs = ser_stream(r); return Read{proj_req(r), rs}; };
+    fill(e, s,
+      [](const req_sketch<float>& o, bool st) { return st ? via_stream([&](std::ostream& os) { o.serialize(os); }) : tob(o.serialize()); },
+      [](const Bytes& x, bool st) { if (!st) return req_sketch<float>::deserialize(x.data(), x.size()); auto is = in_stream(x); return req_sketch<float>::deserialize(is); },
+      [](const req_sketch<float>& o) { return proj_req(o); });
     out.push_back(e);
   }
 }
@@ -114,9 +116,11 @@ template<class T> static void cat_cq_t(std::vector<Entry>& out, const char* tnam
     for (int i = 1; i <= k.n; i++) s.update((T)((PV(i)) * 0.5));
     Entry e; e.family = "quantiles"; e.kind = std::string(k.kind) + "_" + tname; e.name = "quantiles_" + e.kind;
     e.hints = J().i("isz", (int)sizeof(T)).done();
-    e.bytes = tob(s.serialize());       // serialization sorts the base buffer (documented side effect); project afterwards
-    e.proj = proj_cq(s);
-    e.reader = [](const Bytes& x) { auto r = quantiles_sketch<T>::deserialize(x.data(), x.size()); Bytes rs = tob(r.serialize()); return Read{proj_cq(r), rs}; };
+    // serialization sorts the base buffer (documented side effect); projected afterwards
+    fill(e, s,
+      [](const quantiles_sketch<T>& o, bool st) { return st ? via_stream([&](std::ostream& os) { o.serialize(os); }) : tob(o.serialize()); },
+      [](const Bytes& x, bool st) { if (!st) return quantiles_sketch<T>::deserialize(x.data(), x.size()); auto is = in_stream(x); return quantiles_sketch<T>::deserialize(is); },
+      [](const quantiles_sketch<T>& o) { return proj_cq(o); });
     out.push_back(e);
   }
 }
@@ -141,12 +145,13 @@ template<class T> static void cat_td_t(std::vector<Entry>& out, const char* tnam
     for (int i = 1; i <= k.n; i++) s.update((T)((PV(i)) * 0.5));
     Entry e; e.family = "tdigest"; e.kind = std::string(k.kind) + "_" + tname; e.name = "tdigest_" + e.kind;
     e.hints = J().i("isz", (int)sizeof(T)).done();
-    e.bytes = tob(s.serialize(0, k.with_buffer));
     // "buffered": nothing was compressed yet, so the buffer holds the inputs in arrival order (n < buffer capacity)
     if (std::string(k.kind) == "buffered") for (int i = 1; i <= k.n; i++) kn.buffered.push_back(((PV(i)) * 0.5));
-    e.proj = proj_td(s, kn);
-    bool wb = k.with_buffer;
-    e.reader = [kn, wb](const Bytes& x) { auto r = tdigest<T>::deserialize(x.data(), x.size()); Bytes rs = tob(r.serialize(0, wb)); return Read{proj_td(r, kn), rs}; };
+    const bool wb = k.with_buffer;
+    fill(e, s,
+      [wb](const tdigest<T>& o, bool st) { return st ? via_stream([&](std::ostream& os) { o.serialize(os, wb); }) : tob(o.serialize(0, wb)); },
+      [](const Bytes& x, bool st) { if (!st) return tdigest<T>::deserialize(x.data(), x.size()); auto is = in_stream(x); return tdigest<T>::deserialize(is); },
+      [kn](const tdigest<T>& o) { return proj_td(o, kn); });
     out.push_back(e);
   }
 }
